@@ -12,7 +12,9 @@ import (
 	"fmt"
 	"math/big"
 	"os"
+	"runtime"
 	"strings"
+	"time"
 )
 
 type vector struct {
@@ -193,6 +195,47 @@ func NoPanic(f func()) (panicked bool) {
 }
 
 func LastPanic() string { return need().lastPanic }
+
+// UntilBlocked stands for "another goroutine runs f now, until it blocks".
+// Under the engine f is executed in place and abandoned at the first channel
+// operation / select that cannot proceed (its effects so far persist, deferred
+// calls do not run); the result is true if f was abandoned, false if it ran to
+// completion.  Natively f runs in its own goroutine and the caller waits until
+// f has finished or has made no progress for a grace period; a panic of f is
+// re-raised in the caller.  A goroutine reported as blocked stays parked and may
+// resume later, when the rest of the harness unblocks it.
+func UntilBlocked(f func()) (blocked bool) {
+	done := make(chan struct{})
+	var pv interface{}
+	go func() {
+		defer func() {
+			pv = recover()
+			close(done)
+		}()
+		f()
+	}()
+	finished := func() bool {
+		select {
+		case <-done:
+			return true
+		default:
+			return false
+		}
+	}
+	for i := 0; i < 200 && !finished(); i++ {
+		runtime.Gosched()
+	}
+	for i := 0; i < 25 && !finished(); i++ {
+		time.Sleep(2 * time.Millisecond)
+	}
+	if !finished() {
+		return true
+	}
+	if pv != nil {
+		panic(pv)
+	}
+	return false
+}
 
 // UF is an uninterpreted function of byte strings under the engine.  Natively
 // it is a fixed but arbitrary deterministic function (FNV-style), which is one
